@@ -240,7 +240,7 @@ def complete_share_flow(ctx, rule):
                                       ("adss::recover", "star_sharks::Sharks::recover", 1, "shares")):
         eng, ret, st, fr = ctx.root(root)
         at = ctx.fn(root).loc
-        cs = [e for e in Q.calls(eng, callee) if e["frame"] == fr.key]
+        cs = [e for e in Q.calls(eng, callee) if e["home"] == fr.key]
         ok = len(cs) == 1
         det = "%d call(s) of %s" % (len(cs), callee)
         if ok:
@@ -253,7 +253,7 @@ def complete_share_flow(ctx, rule):
                 "every share supplied to %s must be handed on to %s (%s)" % (root, callee, det), at, sample=det)
     root = "star_sharks::Sharks::recover"
     eng, ret, st, fr = ctx.root(root)
-    nx = [e for e in Q.calls(eng, "Iterator::next") if e["frame"] == fr.key]
+    nx = [e for e in Q.calls(eng, "Iterator::next") if e["home"] == fr.key]
     ok = False
     det = "no loop over the shares"
     for e in nx:
